@@ -699,6 +699,115 @@ def part_typed(ctx, rng):
             ctx.violation('RawSQLType.__eq__/__hash__ %s two fragments that differ in %s' % ('identify' if eq else 'tell apart', what),
                           {'a': ['i.n = $x', 'int'], 'b': [other.sql, [t.__name__ for t in other.types]]}, observed=eq, expected=same, key='typed:key:' + what)
 
+# ------------------------------------------------------------------------------------------ part 7: repeated and interleaved $-expressions in raw_sql() fragments
+
+INT_EXPRS = ['x', 'z', 'y.z', 'lst[1]', '(x+1)', 'n0', 'G']          # 7, 3, 5, 2, 8, 0, 11
+ANY_EXPRS = INT_EXPRS + ['s', 'pat', "('q')", 'f(z)[1]']
+
+def rgs_patterns(max_len=4, symbols=3):
+    """every order of repetition: restricted-growth strings (x, xx, xy, xxy, xyx, xyy, xyz, xyyx, …) of length 2..max_len"""
+    out = []
+    def go(prefix, used):
+        if len(prefix) >= 2: out.append(list(prefix))
+        if len(prefix) == max_len: return
+        for k in range(min(used + 1, symbols)):
+            go(prefix + [k], max(used, k + 1))
+    go([0], 1)
+    return out
+
+# the CALLERS of the fragment (the `$`-expressions refer to their locals / this module's globals)
+def rs_value(Ent, frag):
+    x = 7; y = _Y(); z = 3; s = "it's 50%"; d = {'k': 9}; lst = [1, 2, 3]; pat = 'a%'; n0 = 0
+    return select(raw_sql(frag) for p in Ent if p.id == 1)[:]
+def rs_cond(Ent, frag):
+    x = 7; y = _Y(); z = 3; s = "it's 50%"; d = {'k': 9}; lst = [1, 2, 3]; pat = 'a%'; n0 = 0
+    return sorted(select(p.id for p in Ent if raw_sql(frag))[:])
+def rs_filter(Ent, frag):
+    x = 7; y = _Y(); z = 3; s = "it's 50%"; d = {'k': 9}; lst = [1, 2, 3]; pat = 'a%'; n0 = 0
+    return sorted(q.id for q in select(p for p in Ent).filter(lambda p: raw_sql(frag)))
+def rs_where(Ent, frag):
+    x = 7; y = _Y(); z = 3; s = "it's 50%"; d = {'k': 9}; lst = [1, 2, 3]; pat = 'a%'; n0 = 0
+    return sorted(q.id for q in select(p for p in Ent).where(lambda p: raw_sql(frag)))
+def rs_order(Ent, frag):
+    x = 7; y = _Y(); z = 3; s = "it's 50%"; d = {'k': 9}; lst = [1, 2, 3]; pat = 'a%'; n0 = 0
+    return [q.id for q in select(p for p in Ent).order_by(lambda p: raw_sql(frag))]
+def rs_plain(db, sql):
+    x = 7; y = _Y(); z = 3; s = "it's 50%"; d = {'k': 9}; lst = [1, 2, 3]; pat = 'a%'; n0 = 0
+    return db.select(sql)
+
+def part_repeats(ctx, rng):
+    """raw_sql() fragments whose $-expressions repeat and interleave, in every order, inside select / if / filter / where /
+       order_by: the arguments handed to the driver are Python's values per OCCURRENCE, and the rows are those of the same
+       text run through db.select"""
+    db, Ent = get_db()
+    scope = scope_locals()
+    data = {1: 7, 2: 8, 3: 5, 4: 3}                     # id -> a
+    pats = rgs_patterns()
+    if not ctx.thorough: pats = [p for p in pats if len(p) <= 3] + rng.sample([p for p in pats if len(p) == 4], 5)
+    for pat_ in pats:
+        for way in ('value', 'cond', 'filter', 'where', 'order'):
+            for variant in range(ctx.scale(1, 3)):
+                pool = ANY_EXPRS if way == 'value' and variant != 1 else INT_EXPRS
+                chosen = rng.sample(pool, max(pat_) + 1)
+                exprs = [chosen[k] for k in pat_]
+                semis = [rng.random() < 0.3 for _ in exprs]
+                vals = [eval(e, globals(), scope) for e in exprs]
+                dollar = rng.random() < 0.6
+                terms = ['$' + e + (';' if sm else '') for e, sm in zip(exprs, semis)]
+                if way == 'value':
+                    sep = " || '|$$|' || " if dollar else " || '|' || "
+                    frag = sep.join(terms) if len(terms) > 1 else terms[0]
+                    expect = [('|$|' if dollar else '|').join(str(v) for v in vals)]
+                    plain_sql = 'select ' + frag + ' from Itm p where p.id = 1'
+                else:
+                    # an arithmetic combination in which every position has its own weight: swapping two values changes it
+                    extra = " + length('$$') - 1" if dollar else ''
+                    comb = ' + '.join('%d * %s' % (3 ** i, t) for i, t in enumerate(terms)) + extra
+                    total = sum(3 ** i * v for i, v in enumerate(vals))
+                    if way == 'order':
+                        frag = 'abs(p.a * %d - (%s))' % (max(1, total // 6), comb)
+                        keyf = lambda a: abs(a * max(1, total // 6) - total)
+                        plain_sql = 'select p.id from Itm p order by ' + frag
+                    else:
+                        target = rng.choice(list(data.values()))
+                        frag = 'p.a - %d = (%s) - %d' % (target, comb, total)      # true exactly for the rows with a == target
+                        expect = sorted(i for i, a in data.items() if a == target)
+                        plain_sql = 'select p.id from Itm p where ' + frag
+                name = ''.join('xyz'[k] for k in pat_)
+                inp = {'way': way, 'pattern': name, 'fragment': frag, 'expressions': exprs, 'values': [repr(v) for v in vals]}
+                core.adapted_sql_cache.clear() if variant == 0 else None
+                del LOG[:]
+                try:
+                    with db_session:
+                        got = {'value': rs_value, 'cond': rs_cond, 'filter': rs_filter, 'where': rs_where, 'order': rs_order}[way](Ent, frag)
+                except Exception as e:
+                    got = 'raised %s' % type(e).__name__
+                seen = [l for l in LOG if l[0].lstrip().upper().startswith('SELECT') and 'sqlite_master' not in l[0]]
+                args = list(seen[-1][1]) if seen and seen[-1][1] is not None else []
+                del LOG[:]
+                try:
+                    with db_session:
+                        plain = rs_plain(db, plain_sql)
+                except Exception as e:
+                    plain = 'raised %s' % type(e).__name__
+                ctx.case(['repeat', way, name, frag], kind='repeat:%s:%s' % (way, 'x' * len(pat_)))
+                ctx.count('repeat:pattern:' + name)
+                if way == 'order':
+                    ok_rows = isinstance(got, list) and isinstance(plain, list) and [keyf(data[i]) for i in got] == sorted(keyf(a) for a in data.values()) \
+                        and [keyf(data[i]) for i in got] == [keyf(data[i]) for i in plain]
+                    expect = 'ids ordered by %s' % frag
+                elif way == 'value':
+                    ok_rows = got == expect and plain == expect
+                else:
+                    ok_rows = got == expect and (sorted(plain) if isinstance(plain, list) else plain) == expect
+                ok_args = [repr(a) for a in args] == [repr(v) for v in vals]
+                if not ok_rows or not ok_args:
+                    ctx.violation('raw_sql(%r) used as %s: %s' % (frag, {'value': 'a query result', 'cond': 'a query condition', 'filter': '.filter()', 'where': '.where()', 'order': '.order_by()'}[way],
+                                  'the rows differ from the same text run through db.select / from the Python values' if not ok_rows else
+                                  'the arguments handed to the driver are not the values of the expressions, occurrence by occurrence'),
+                                  inp, observed={'rows': got, 'db.select': plain, 'arguments': [repr(a) for a in args]},
+                                  expected={'rows': expect, 'arguments': [repr(v) for v in vals]}, key='rawsql-repeat:%s:%s' % (way, name))
+
 # ------------------------------------------------------------------------------------------ malformed input (observed, not judged)
 
 def part_malformed(ctx):
@@ -741,6 +850,7 @@ def run(ctx):
     part_raw(ctx, pool[:ctx.scale(150, 1500)])
     part_scanner(ctx, rng, pool)
     part_typed(ctx, rng)
+    part_repeats(ctx, rng)
     part_malformed(ctx)
     core.adapted_sql_cache.clear(); ormtypes.raw_sql_cache.clear()
     if not ctx.driver.ok: ctx.note('driver unavailable: the model tie was skipped, only the oracle on the real code ran')
